@@ -19,7 +19,7 @@ RULE = ('Hypothesis draws (dim, direction analysis/synthesis, wavelet with filte
         'Distinct = configuration without seeds.')
 ASSUMPTIONS = ['the forward pass defines the function whose adjoint is demanded',
                'PyWavelets single-level matrices are used only to model the known defective backward (D2a/b/c)',
-               'tolerance 1e-9*max(1,gain) float64']
+               'tolerance 1e-11*max(1,gain) float64']
 STRATA = {'thorough': 'wavelets with L<=20 (66) x 5 modes x direction x dim', 'quick': ''}
 LABEL_FLOORS = {'synthesis': 0.35, 'analysis': 0.35, 'odd': 0.25}
 W20 = [w for w in dwtu.WAVES if dwtu.flen(w) <= 20]
@@ -270,7 +270,7 @@ def _analysis(case, r, per_axis):
     A = _flat([out[0]] + list(out[1])).numpy()              # (n_in, total): row i = T e_i
     total = A.shape[1]
     g = core.gain(A)
-    tol = 1e-9 * max(1.0, g)
+    tol = core.TOL64 * max(1.0, g)
     Cg, full = dwtu.basis_rows(total, case['k'], cap=640, sub=64)
     r.label('full_jacobian' if full else 'jacobian_row_subset')
     K = Cg.shape[0]
@@ -290,7 +290,7 @@ def _analysis(case, r, per_axis):
     ok, Gb = lib(torch.autograd.grad, F, X, -2.0 * ct, allow_unused=True)
     if not ok:
         return r.fail('second_backward_raise:' + Gb.bucket, 'a second backward pass through the same graph raised: %s' % Gb)
-    if G[0] is not None and (Gb[0] is None or float((Gb[0] + 2.0 * G[0]).abs().max()) > 1e-9 * max(float(G[0].abs().max()), 1e-300)):
+    if G[0] is not None and (Gb[0] is None or float((Gb[0] + 2.0 * G[0]).abs().max()) > core.TOL64 * max(float(G[0].abs().max()), 1e-300)):
         return r.fail('second_backward_differs', 'pulling back -2g through the same graph is not -2 x the pull-back of g')
     if G[0] is None:
         return r.fail('none_grad:x', 'the signal requires grad but received None')
@@ -326,7 +326,7 @@ def _analysis(case, r, per_axis):
         Gd, = torch.autograd.grad([o3[0]] + list(o3[1]), xs, [torch.tensor(a) for a in gs])
         gflat = np.concatenate([a.reshape(N, C, -1) for a in gs], axis=2)       # (N,C,total)
         wantd = np.einsum('nct,ti->nci', gflat, got).reshape([N, C] + size)
-        told = 1e-9 * max(g * max(core.maxabs(a) for a in gs), core.maxabs(wantd), 1e-300)
+        told = core.TOL64 * max(g * max(core.maxabs(a) for a in gs), core.maxabs(wantd), 1e-300)
         okc, err = core.close(Gd.numpy(), wantd, told)
         if not okc:
             r.fail('analysis_vjp_slices:dim%d' % dim, 'the (N,C) backward is not the per-slice action of the N=C=1 backward: '
@@ -399,7 +399,7 @@ def _synthesis(case, r, per_axis):
     n_out = S.shape[1]
     out_shape = tuple(out.shape[2:])
     g = core.gain(S.T)
-    tol = 1e-9 * max(1.0, g)
+    tol = core.TOL64 * max(1.0, g)
     Cg, full = dwtu.basis_rows(n_out, case['k'], cap=640, sub=64)
     r.label('full_jacobian' if full else 'jacobian_row_subset')
     K = Cg.shape[0]
@@ -418,7 +418,7 @@ def _synthesis(case, r, per_axis):
         if not ok2:
             return r.fail('second_backward_raise:' + Gb.bucket, 'a second backward pass through the same graph raised: %s' % Gb)
         for g1_, g2_ in zip(G, Gb):
-            if g1_ is not None and (g2_ is None or float((g2_ + 2.0 * g1_).abs().max()) > 1e-9 * max(float(g1_.abs().max()), 1e-300)):
+            if g1_ is not None and (g2_ is None or float((g2_ + 2.0 * g1_).abs().max()) > core.TOL64 * max(float(g1_.abs().max()), 1e-300)):
                 return r.fail('second_backward_differs', 'pulling back -2g through the same graph is not -2 x the pull-back of g')
     out_may_raise = mode == 'reflect' and any((n % 2 == 0 and n <= L - 2) or (n % 2 == 1 and n <= L - 1)
                                               for n, L in zip(out_shape, Ls))
@@ -481,7 +481,7 @@ def _synthesis(case, r, per_axis):
                 if tuple(gk.shape) != wantd.shape:
                     r.fail('shared_batch_grad_shape', 'gradient of the batch-shared %s has shape %s' % (k, tuple(gk.shape)))
                     continue
-            told = 1e-9 * max(g * core.maxabs(gv), core.maxabs(wantd), 1e-300)
+            told = core.TOL64 * max(g * core.maxabs(gv), core.maxabs(wantd), 1e-300)
             okc, err = core.close(gk.numpy(), wantd, told)
             if not okc:
                 r.fail('synthesis_vjp_slices:dim%d' % dim, 'the (N,C) backward of %s is not the per-slice action of the '
